@@ -108,6 +108,9 @@ impl Property for C11 {
     fn runs(&self, tier: Tier) -> u64 { match tier { Tier::Quick => 80000, Tier::Thorough => 3000000 } }
 
     fn run(&self, src: &mut Src, ctx: &RunCtx) -> RunReport {
+        // one run in 150 starts the server the way `main` of server_persistent does, on real files, kills or stops it
+        // and starts it again (the wiring is copied out of main() by build.rs; see props/c08.rs)
+        if src.below(150) == 0 { return crate::props::c08::run_server_lifecycle(src, ctx, "C11"); }
         let mut rep = RunReport::default();
         if src.chance(1, 1500) { return self.run_long_history(src); }
         let scfg = StreamCfg { nrep: 1 + src.below(3) as usize, nkeys: 1 + src.below(4) as usize, max_ops: 16, hashes: src.chance(1, 2), type_changes: false, deletes: true, expiry: src.chance(1, 3) };
